@@ -126,11 +126,21 @@ def _data_array(kind, data):
 def _h5_df():
     """one in-memory HDF5 dataset per worker process; a fresh dataframe per case"""
     import io
+    if 'ds' in _h5 and _h5['n'] % 16 == 0:
+        # the dataset keeps every dataframe's fields and their write buffers alive (about 0.6 MB per case, cyclic
+        # garbage once closed): start a new in-memory file every 16 HDF5-backed cases and collect
+        import gc
+        try:
+            _h5['s'].close()
+        except Exception:
+            pass
+        del _h5['ds'], _h5['s']
+        gc.collect()
     if 'ds' not in _h5:
         s = _session.Session()
         _h5['s'] = s
         _h5['ds'] = s.open_dataset(io.BytesIO(), 'w', 'ds')
-        _h5['n'] = 0
+        _h5['n'] = _h5.get('n', 0)
     _h5['n'] += 1
     return _h5['ds'].create_dataframe('df%d' % _h5['n'])
 
@@ -679,6 +689,13 @@ def gen(tier, rng):
 
 def _gen(tier, rng):
     big = tier == 'thorough'
+    if os.environ.get('C04_NEW'):       # development aid: only the generators added by the strengthening round
+        yield from _gen_histories(big, rng)
+        yield from _gen_defaults(big, rng)
+        yield from _gen_extremes(big, rng)
+        yield from _gen_text(big, rng)
+        yield from _gen_scaled(big, rng)
+        return
     N, L = (6, 5) if big else (5, 4)
     other_kinds = ['int64', 'uint8', 'float32', 'float64', 'bool', 'S3']
     rot = 0
